@@ -4,6 +4,8 @@ import glob, json, os
 rows = []
 for f in sorted(glob.glob(os.path.join(os.path.dirname(__file__), "..", "seeded", "*", "meta.json"))):
     m = json.load(open(f))
-    rows.append(f"| {m['property']} | `{m['name']}` | {m['needs_to_manifest']} | {m['outcome']} |")
+    extra = (" — " + m["ported"]) if m.get("ported") else ""
+    extra += (" — SUPERSEDED: " + m["superseded"]) if m.get("superseded") else ""
+    rows.append(f"| {m['property']} | `{m['name']}` | {m['needs_to_manifest']} | {m['outcome']}{extra} |")
 print("| property | seeded change | needs, to manifest | outcome |\n|---|---|---|---|")
 print("\n".join(rows))
